@@ -224,6 +224,23 @@ def run(ctx):
                 for runner in ("sync", "async"):
                     check_case(ctx, dspec, {"a": "run:a"}, None if sel_kind == "graph" else list(sel), runner, f"directed-unselected-bound-subgraph-{sel_kind}")
         ctx.case({"directed": "unselected-bound-subgraph"}, True)
+        # directed: a parameter bound on the graph that only nodes OUTSIDE the graph-level selection consume: the
+        # selection narrows what is returned and validated, every satisfiable node still runs - with the bound value
+        for sel in (["p"], ["p", "m"]):
+            for order in (0, 1):
+                nodes = [
+                    {"k": "fn", "name": "up", "params": [{"n": "a"}], "outs": ["m"]},
+                    {"k": "fn", "name": "store", "params": [{"n": "m"}, {"n": "k"}], "outs": ["stored"]},
+                    {"k": "fn", "name": "audit", "params": [{"n": "k"}], "outs": []},
+                    {"k": "fn", "name": "other", "params": [{"n": "m"}], "outs": ["p"]},
+                ]
+                if order:
+                    nodes.reverse()
+                dspec = {"name": "g", "nodes": nodes, "bind": {"k": "bound:K"}, "select": list(sel)}
+                for runner in ("sync", "async"):
+                    check_case(ctx, dspec, {"a": "run:a"}, None, runner, "directed-bound-consumed-outside-selection")
+                    check_case(ctx, {**dspec, "select": None}, {"a": "run:a"}, list(sel), runner, "directed-bound-consumed-outside-runtime-selection")
+        ctx.case({"directed": "bound-consumed-outside-selection"}, True)
     for i in range(n):
         rng = ctx.rng
         if i % 8 == 7:
